@@ -141,7 +141,7 @@ def run(ctx):
 CLAIM = {
     "text": "Decides that the publisher's frame layout and the reader's parsing agree (separator, three fields, order, at most two splits, prefix "
             "validation on both sides), that every fallible operation on wire-derived data in the poll loop is guarded by a handler that raises "
-            "the decode error in strict mode and otherwise drops the frame and continues, and that delivery is dominated by the prefix filter. "
+            "the decode error in strict mode and otherwise drops the frame and continues, that everything delivered is assigned between receiving that frame and delivering it, and that delivery is dominated by the prefix filter. "
             "Pickle round trips and transport ordering are not decided.",
     "technique": "writer/reader table agreement; error-discipline rule over fallible operations on tainted (wire-derived) data; guard dominance",
 }
